@@ -15,7 +15,7 @@ CONSTANTS
   PayLens = {2, 9}
   BatchSizes = {1, 2}
   AllowExplicit = TRUE
-INIT Init
-NEXT Next
+INIT MCInit
+NEXT MCNext
 INVARIANTS VerdictOk Refines NextAboveAssigned BatchAtomic FilesBound BytesTrack BufInv ZerosAhead
 CHECK_DEADLOCK FALSE
